@@ -42,3 +42,56 @@ def m1():
 
 def ev(*events):
     return [tuple(e) for e in events]
+
+
+def m2():
+    """Two partitions, traits, two tenants; allocation variants move the
+    pattern p.* to the tenant of the other partition / change its traits."""
+    def allocs(p_to, ta_traits):
+        ta = {'name': 'ta', 'partition': '_default', 'rank': 100,
+              'memory': '0M', 'cpu': '0%', 'disk': '0M',
+              'traits': ta_traits, 'assignments': []}
+        tb = {'name': 'tb', 'partition': 'p2', 'rank': 100,
+              'memory': '0M', 'cpu': '0%', 'disk': '0M',
+              'traits': ['t1'], 'assignments': [
+                  {'pattern': 'q.*', 'priority': 50}]}
+        (ta if p_to == 'ta' else tb)['assignments'].append(
+            {'pattern': 'p.*', 'priority': 50})
+        return [ta, tb]
+    return {
+        'traits': ['t1', 't2'],
+        'partitions': {'p2': {}},
+        'buckets': [('rack:0', None), ('rack:1', None)],
+        'servers': {
+            's0': {'parent': 'rack:0', 'variants': [
+                {'cap': ['10M', '10%', '10M'], 'partition': None},
+                {'cap': ['10M', '10%', '10M'], 'partition': 'p2',
+                 'traits': ['t1']},
+                {'cap': ['10M', '10%', '10M'], 'partition': None,
+                 'traits': ['t1']}]},
+            's1': {'parent': 'rack:1', 'variants': [
+                {'cap': ['10M', '6%', '10M'], 'partition': None,
+                 'traits': ['t1']},
+                {'cap': ['10M', '6%', '10M'], 'partition': None}]},
+            's2': {'parent': 'rack:0', 'variants': [
+                {'cap': ['6M', '10%', '10M'], 'partition': 'p2',
+                 'traits': ['t1']}]},
+            's3': {'parent': 'rack:1', 'variants': [
+                {'cap': ['10M', '10%', '10M'], 'partition': 'p2',
+                 'traits': ['t1', 't2']}]},
+        },
+        'allocations': [allocs('ta', []), allocs('tb', []),
+                        allocs('ta', ['t1'])],
+        'templates': {
+            'pl': {'memory': '3M', 'cpu': '3%', 'disk': '3M', 'affinity': 'a'},
+            't1': {'memory': '6M', 'cpu': '2%', 'disk': '2M', 'affinity': 'b',
+                   'traits': ['t1']},
+            'tx': {'memory': '2M', 'cpu': '2%', 'disk': '2M', 'affinity': 'c',
+                   'traits': ['nosuch']},
+            'hi': {'memory': '10M', 'cpu': '6%', 'disk': '10M',
+                   'affinity': 'd', 'priority': 100},
+        },
+        'blacklists': [[], ['p.pl']],
+        'max_apps': 4,
+        'events': [],
+    }
